@@ -25,7 +25,7 @@ RULE += (" Two in ten flow-shaped factories also contain rework loops (a machine
          "Buffer / Fleet edge with a strictly positive delay / transit time, so no zero-time cycle exists); machine oracles work per visit, not per item. "
          "One in ten factories is a chain or a rows x cols mesh built by the helpers of factorysimpy.constructs (the harness hands them factories "
          "as node / edge classes and checks the wiring they produce against the documented topology).")
-ASSUMPTIONS = ["valid domain = constructor signatures and parameter documentation; explicit ValueError('Unsupported edge type') is a rejection, not a crash"]
+ASSUMPTIONS = ["valid domain = constructor signatures and parameter documentation"]
 
 PROFILE = {"cycles": 2, "constructs": 1, "conveyors": True, "conveyor_to_sink": True, "conveyor_weight": 1, "pack": 2}
 INVALID_KINDS = ["capacity_zero", "capacity_negative", "capacity_float", "buffer_mode", "negative_delay_edge",
@@ -202,7 +202,9 @@ class CrashOracle(FOracle):
 
 
 def is_rejection(exc):
-    return isinstance(exc, ValueError) and "Unsupported edge type" in str(exc)
+    # every node accepts Buffer, Fleet and both conveyor kinds on either side (after repair d920110 also the sink): nothing the
+    # grammar builds is an unsupported combination, so no exception of a valid model counts as a rejection
+    return False
 
 
 def run_case(case):
